@@ -17,3 +17,6 @@ open RawPanelVerif.C04
 #print axioms support_line_any_order
 #print axioms support_lines_same_set
 #print axioms roundtrip_out
+#print axioms decOut_line_local
+#print axioms decOut_context_free
+#print axioms readOutboundWith_eq
